@@ -39,12 +39,12 @@ LEVEL = "fault_enumeration"
 FRESH_PROCESS_PER_TASK = True  # the environment has to be set before elexmodel is imported: one interpreter per task
 
 RULE = (
-    "Every combination of save_output subset (16) x environment (APP_ENV=local | dev/prod) x estimator (3) x gate "
+    "Every combination of save_output subset (16) x environment (APP_ENV=local | non-local with APP_ENV equal to or different from DATA_ENV) x estimator (3) x gate "
     "outcome (exactly need+{3,4,6} | need-{1,2} modelled reporting units) x aggregates shape (unit table or not, 1-2 "
     "levels) is run end-to-end through ModelClient.get_estimates (plus get_national_summary_votes_estimates after "
     "completed bootstrap runs whose last level is the top level) on a generated election, with a recording S3 client "
-    "and a fresh temp cwd.  Checked: no read and no other remote call; every put has Bucket == <bucket>-<env> and a "
-    "whitespace-free Key under <root>-<env>/<election id>/; live-results objects (results/<office>/<unit type>/"
+    "and a fresh temp cwd.  Checked: no read and no other remote call; every put has Bucket == <bucket>-<DATA_ENV> and a "
+    "whitespace-free Key under <root>-<DATA_ENV>/<election id>/; live-results objects (results/<office>/<unit type>/"
     "current.csv, current_counties.csv) exactly once each iff 'results' requested and env non-local - also when the run "
     "ends in ModelNotEnoughSubunitsException (saved before the gate) - and before any prediction object; prediction "
     "objects exactly one per returned table iff 'results', non-local and the run completed (none after a gate error), "
@@ -58,7 +58,7 @@ RULE = (
 ASSUMPTIONS = [
     "persistence is observed at two seams only: the boto3 S3 client (boto3.client replaced by a recorder before any S3Util is built) and the file tree under the working directory; writes to absolute paths elsewhere would go unseen",
     "elections are restricted to shapes on which the estimators have no known unrelated defect (no unexpected / non-modelled units, no classification level, no covariates or fixed effects, outlier models off, winsorize off); the election is not part of the enumerated space",
-    "the non-local environments have APP_ENV == DATA_ENV (dev or prod); the local environment is APP_ENV=local with DATA_ENV=dev",
+    "the non-local environments are (APP_ENV, DATA_ENV) in {(dev,dev), (prod,dev), (prod,prod), (staging,prod)}; the local environment is APP_ENV=local with DATA_ENV=dev (the documented developer setup); bucket and root are expected to carry the DATA environment, as utils/file_utils.py documents by construction",
     "the statement is silent on whether conformalization data is written in the local environment, by a non-gaussian estimator, or before a gate error: only 'never when not requested' is asserted there",
     "presence of the config/data files is required only after a completed run (they are allowed, not required, after a gate error)",
     "the national-summary call is made only when the last requested level is the office's top level (other orders hit finding F07, which belongs to C08)",
@@ -72,7 +72,9 @@ ENVS = ["local", "nonlocal"]
 SHAPES = [(u, lv) for u in (0, 1) for lv in (1, 2)]  # (unit table requested, number of levels)
 BUCKET = "vfbucket"
 ROOT = "vfroot"
-ENV_VARIANTS = {"local": [("local", "dev")], "nonlocal": [("dev", "dev"), ("prod", "prod")]}
+# non-local variants: half with APP_ENV == DATA_ENV, half with different values (code of one stage on the data of
+# another): the bucket and the root carry the DATA environment, the local/non-local switch is the APP environment
+ENV_VARIANTS = {"local": [("local", "dev")], "nonlocal": [("dev", "dev"), ("prod", "dev"), ("prod", "prod"), ("staging", "prod")]}
 HERE = os.path.dirname(os.path.dirname(os.path.dirname(os.path.abspath(__file__))))
 MARK = "C18-RESULT "
 N_SHARDS = 8
@@ -278,7 +280,9 @@ def setup_process(env):
 
     import elexmodel.client  # noqa: F401
 
-    if file_utils.APP_ENV != env["APP_ENV"] or file_utils.TARGET_BUCKET != f"{env['MODEL_S3_BUCKET']}-{env['DATA_ENV']}" or file_utils.S3_FILE_PATH != f"{env['MODEL_S3_PATH_ROOT']}-{env['DATA_ENV']}":
+    # only that the variables were READ is a harness matter; how bucket and root are composed from them is behaviour
+    # under test (the oracle compares every recorded Bucket / Key with <bucket>-<DATA_ENV> and <root>-<DATA_ENV>)
+    if file_utils.APP_ENV != env["APP_ENV"] or file_utils.DATA_ENV != env["DATA_ENV"]:
         raise RuntimeError("C18 harness: import-time configuration did not take effect")
     _READY["env"] = dict(env)
 
